@@ -41,6 +41,13 @@ type deviant struct {
 	applies func(q *Query, p Params) bool
 }
 
+func abs(x int) int {
+	if x < 0 {
+		return -x
+	}
+	return x
+}
+
 func decimals(c *Cmp) int {
 	if c == nil {
 		return 0
@@ -104,11 +111,18 @@ func evaluate(spec caseSpec, verbose bool) (out outcome) {
 		return
 	}
 	q := spec.Query
+	// the reader process's local zone is part of the case (cases run one at a time in a worker; the post-processor
+	// goroutines of the previous case have ended when its channel was drained)
+	if spec.ZoneOffS == 0 {
+		time.Local = time.UTC
+	} else {
+		time.Local = time.FixedZone(fmt.Sprintf("UTC%+d:%02d", spec.ZoneOffS/3600, (abs(spec.ZoneOffS)%3600)/60), spec.ZoneOffS)
+	}
 	impl := runImpl(spec.Text, spec.Params, d.chdb(), spec.Cluster)
 	out.stmts = len(impl.sql)
 	if verbose {
 		fmt.Println("LogQL:   ", spec.Text)
-		fmt.Printf("window:   from=T0+%ds to=T0+%ds step=%dms range=%ds cluster=%v\n", spec.Params.FromS, spec.Params.ToS, spec.Params.StepMs, q.RangeS, spec.Cluster)
+		fmt.Printf("window:   from=T0+%ds to=T0+%ds step=%dms range=%ds cluster=%v time.Local=%s\n", spec.Params.FromS, spec.Params.ToS, spec.Params.StepMs, q.RangeS, spec.Cluster, time.Local)
 		fmt.Println("database:", spec.DB)
 		for _, e := range d.Entries {
 			s := d.Streams[e.Stream]
@@ -220,6 +234,9 @@ func evaluate(spec caseSpec, verbose bool) (out outcome) {
 		}
 	}
 	where := fmt.Sprintf("%s on %s from=%ds to=%ds step=%dms", spec.Text, spec.DB, spec.Params.FromS, spec.Params.ToS, spec.Params.StepMs)
+	if spec.ZoneOffS != 0 {
+		where += fmt.Sprintf(" zone=%s", time.Local)
+	}
 	if best >= 0 {
 		for i, di := range app {
 			if best&(1<<i) != 0 {
@@ -496,15 +513,16 @@ func main() {
 		evaluate(g.cases[0], false)
 		return
 	}
-	r.Rule = "seven layers, each a full product consumed to the end: L1 {rate, count_over_time, bytes_rate, bytes_over_time} x pipelines {none, line filter |= != |~, label filter = != >} and " +
+	r.Rule = "eight layers, each a full product consumed to the end: L1 {rate, count_over_time, bytes_rate, bytes_over_time} x pipelines {none, line filter |= != |~, label filter = != >} and " +
 		"{rate, sum/avg/min/max/first/last_over_time} on `| json v=\"v\" | unwrap v` x {none, line filter, label filter before json, numeric label filter on the extracted label} x range {5s,10s,15s,1m} x (from,to) on/off bucket boundaries x step {range/2, range, 2*range} " +
 		"x every sub-database of <=3 (thorough <=4) entries of a 9-entry pool (entry just before the window, on a bucket boundary, inside, last ns of a bucket, in later buckets; two streams; plus a metric-type sample and a non-selected stream in every database); " +
 		"L2 {sum,min,max,avg,count} x {no grouping, by/without in prefix and suffix position} x inner range aggregations x steps x every sub-database of <=3 (4) entries of a 9-entry pool of three streams sharing / not sharing a and b; " +
 		"L3 six comparison operators x thresholds on / between values x position (range aggregation, vector aggregation, inside a vector aggregation, topk); L4 topk/bottomk x k in 1..3 x five inner expressions (ties at the cut occur); " +
 		"L6 compositions: comparison over topk/bottomk (k 1..2) over {count, rate, unwrapped sum, vector aggregation}, top/bottom-k over (vector aggregation over comparison), comparison at range level and at vector level in one query, all three positions at once, x 6 operators x thresholds straddled by the values, at 5 s (samples path) and 15 s (metrics_15s shortcut), on all 63 distributions of 0..3 entries per stream (three series with pairwise distinct values); " +
 		"L7 grouping compositions: (clause on the unwrapped range function) x (clause on the vector aggregation) over {none, by(L), without(L)}, L in {a},{a,b},{b} (subset, superset, disjoint, equal), prefix and suffix position, x {sum,max,count}, on every sub-database of <=3 (4) entries of four streams (two differing only in b, one in a, one without b) x two buckets; " +
+		"L8 environment: reader process time zone (time.Local in UTC, UTC+9, UTC+14, UTC-5, UTC+5:45) x 120 s windows starting 60 s before / after UTC midnight and the zone's local midnight and 60 s before / after those instants + 30 min, x query families (plain range aggregation, shortcut + by, rate + by, topk over sum without, unwrapped sum; thorough 19 shapes) x databases whose time_series rows carry the UTC day of their samples (single entries and the whole 6-entry pool; thorough pairs too); " +
 		"L5 ungrouped unwrap, missing / non-numeric / zero / negative unwrapped values, equal timestamps, empty line filters, quantile_over_time, thresholds with > 6 decimals, cluster mode, ranges 20s/30s, further matchers. " +
-		"A case is distinct by (query text, database, from, to, step, cluster) - asserted unique at generation; non-trivial = the reference result is non-empty"
+		"A case is distinct by (query text, database, from, to, step, cluster, zone) - asserted unique at generation; non-trivial = the reference result is non-empty"
 	r.Assumptions = []string{
 		"chsim implements ClickHouse semantics for the emitted SQL subset (trusted base, see mc/chsim/README.md); cityHash64 of a map is an injective stand-in",
 		"a point of value 0 may be absent from the response (ZeroEaterPlanner / FixPeriodPlanner drop zeros; the statement does not distinguish 0 from no sample)",
